@@ -77,6 +77,16 @@ CHECKS = {
             "perf_counter scripted: one yield event at a stage boundary, reason admissible, no later-stage records, stage work within budgets.",
             "Trusted: harness/models/scheduler.py; where docs are silent (order among several BUDGET_* reasons, per-graph vs per-slice T1 budget) both readings are admitted.",
             "DESIGN.md §3 C17"),
+    "C18": ("exploration",
+            "Hypothesis rule-based state machine over GEL operations against a reference edge-map model + targeted Hypothesis properties (permutation invariance, decay exactness, maintenance purity, gate inertness) + real turns",
+            "Histories over {observe(items), tick(dt), merge, split, promote, direct applies} with validated graph.* settings (both update "
+            "modes, alpha, clamp ranges, half-lives, floors, caps incl. 0/1) and item lists in 10 shapes with ties/duplicates/NaN/inf "
+            "scores, checked after every op against an independent model: weights within clamp, tick never grows |w| and drops exactly "
+            "the sub-floor edges, one canonical edge per unordered pair, observation touches <= pair cap pairs among the top-k above "
+            "threshold and is permutation-insensitive, merge/split only annotate, promotion adds only concept node+edges and is "
+            "idempotent, gate off leaves the state bit-identical; real orchestrator turns agree with the direct API.",
+            "Trusted: harness/models/gel.py (update amounts follow code+unit tests where the m11 doc formula differs).",
+            "DESIGN.md §3 C18"),
 }
 
 NOT_APPLICABLE = {
